@@ -42,6 +42,7 @@ func main() {
 		}
 	}
 	fmt.Printf("gen2coq: enum=%v srv=%v cli=%v consts=%v routes=%v\n", res.EnumOK(), res.SrvOK(), res.CliOK(), res.ConstOK(), res.RouteOK())
+	fmt.Printf("gen2coq: closer order %v %v\n", res.CloserOrder, res.CloserReasons)
 	for _, r := range append(append(append(append(append([]string{}, res.EnumReasons...), res.SrvReasons...), res.CliReasons...), res.ConstReasons...), res.RouteReasons...) {
 		fmt.Println("  not recognised: " + strings.ReplaceAll(r, "\n", " "))
 	}
